@@ -10,6 +10,21 @@ OPS = ["step", "keyarray", "reset"]
 PROPS = ("ResetSelected", "KeyframeOK")
 
 
+def sap_row_xml(n=14):
+  """Free spheres in a row perpendicular to the SAP sweep axis (all projections overlap: many sweep candidates), resting on a plane,
+  sleeping enabled; keyframe 1 sends one sphere into its neighbour, keyframe 0 is at rest (the world falls asleep)."""
+  import numpy as np
+
+  u = np.array([0.7790, -0.5935, 0.0])
+  u /= np.linalg.norm(u)
+  bodies = "".join(f'<body name="s{i}" pos="{0.25 * i * u[0]:.5f} {0.25 * i * u[1]:.5f} 0.0995"><freejoint/><geom type="sphere" size="0.1" mass="1"/></body>' for i in range(n))
+  q0 = " ".join(f"{0.25 * i * u[0]:.5f} {0.25 * i * u[1]:.5f} 0.0995 1 0 0 0" for i in range(n))
+  v1 = " ".join((f"{-u[0]:.5f} {-u[1]:.5f} 0 0 0 0" if i == 4 else "0 0 0 0 0 0") for i in range(n))
+  return f"""<mujoco><option timestep="0.005"><flag sleep="enable"/></option>
+  <worldbody><geom name="floor" type="plane" size="10 10 .1"/>{bodies}</worldbody>
+  <keyframe><key name="rest" qpos="{q0}"/><key name="hit" qpos="{q0}" qvel="{v1}"/></keyframe></mujoco>"""
+
+
 def run(ctx: core.Ctx):
   ctx.rule = ("TLC -simulate behaviours of Pipeline.tla over 3 worlds with DIFFERENT controls / keyframes / resets per world, depth 7, 3 models; each "
               "world is compared bitwise after every action with the same term simulated ALONE (nworld=1) and with the same term at a different batch "
@@ -19,7 +34,14 @@ def run(ctx: core.Ctx):
   mods["constraints.xml"] = "/repo/mujoco_warp/test_data/constraints.xml"  # nv=50 dense Newton: the tiled solver path
   for tag, opts in (("alone", {"ref_nworld": 1}), ("shifted", {"ref_shift": 1})):
     c13.run_generic(ctx, OPS, PROPS, {f"{k}/{tag}": v for k, v in mods.items()}, depth=7, nbeh_quick=25, nbeh_thorough=300, opts=opts)
-  ctx.assumptions += ["no overflow bit in these scenes; sleeping disabled"]
+  # long quiet stretches with sleeping enabled and the sweep-and-prune broadphases (work packages of one kernel span worlds)
+  row = sap_row_xml()
+  long_models = {"sap_row/tile": (row, {"opt.broadphase": "sap_tile"}), "sap_row/segmented": (row, {"opt.broadphase": "sap_segmented"}), "sap_row/nxn": row}
+  c13.run_generic(ctx, ["stepn", "keyarray", "step"], PROPS, {f"{k}/alone": v for k, v in long_models.items()}, depth=6, nbeh_quick=5, nbeh_thorough=40,
+                  opts={"ref_nworld": 1, "tol": 1e-4})
+  ctx.assumptions += ["no overflow bit in these scenes; sleeping enabled only in the sap_row scenes",
+                      "sap_row scenes (nv=84, sparse Newton) are compared at 1e-4 instead of bitwise: solver._jtdaj_groups_per_world partitions the Hessian "
+                      "assembly by a function of nworld, so the order of its atomic sums - and the last bits of qacc - depend on the batch size (F14)"]
 
 
 def replay(ctx, scen):
@@ -30,6 +52,6 @@ META = {
   "text": "TLC checks WorldIsolation on the shared contact-buffer model (all interleavings) and generates Pipeline.tla behaviours in which the worlds of "
           "a batch receive different controls, keyframes and resets; after every action each world's integration state and contacts must equal, "
           "bitwise, the same term simulated alone (nworld=1) and at another batch position.",
-  "note": "3 models, batches of 3; comparison is bitwise (CPU); overflow-free scenes; sleeping disabled",
+  "note": "batches of 3; comparison is bitwise (CPU); overflow-free scenes; sleeping enabled in the sweep-and-prune row scenes only",
   "technique": "TLA+ (Pipeline.tla, ContactBuf.tla) model-checked with TLC + spec->code behaviour replay against single-world references",
 }
